@@ -67,7 +67,8 @@ def case_facts(op, case, spelling):
         "shapes": "|".join(str(tuple(f["shape"])) for f in feats),
         "view": any(f.get("view") for f in feats),
         "kinds": "|".join(f["kind"] for f in feats),
-        "kw": ",".join(sorted(k for k in case["kw"])),
+        "kw": ",".join(sorted(k for k in case["kw"] if k != "seq_as_array")),
+        "seq_as_array": bool(case["kw"].get("seq_as_array")),
         "zero_term": any(f.get("zero_term") for f in feats),
         "dtypes": "|".join(str(s.get("dtype", "")) if s["k"] == "poly" else "" for s in case["operands"]),
     }
